@@ -55,6 +55,10 @@ func c10Scenarios() []c10Scenario {
 		{name: "set||filtered-range(index)", writers: [][]model.Act{{set(R0, 5), set(R1, 7)}}, readers: []c10Reader{{"withindex", nil}}},
 		{name: "keyed/set-both-rows||querykey||upsertkey-reader", keyed: true, writers: [][]model.Act{{set(R0, 5), set(R1, 6)}},
 			readers: []c10Reader{{"querykey", []uint32{R1}}, {"upsertkey", []uint32{R0}}}},
+		// a point read of a row of ANOTHER block issued from inside a Range callback (the
+		// same transaction): the nested callback is a point-read callback like any other
+		{name: "set-r1||range-with-nested-queryat(r1)", writers: [][]model.Act{{set(R1, 5)}}, readers: []c10Reader{{"nested", []uint32{R1}}}},
+		{name: "inc-both-rows||set-r1||range-with-nested-queryat(r1)", writers: [][]model.Act{{inc(R0), inc(R1)}, {set(R1, 9)}}, readers: []c10Reader{{"nested", []uint32{R1}}}},
 		{name: "inc||queryat||range", writers: [][]model.Act{{inc(R0), inc(R1)}}, readers: []c10Reader{{"queryat", []uint32{R1}}, {"range", nil}}},
 	}
 }
@@ -117,6 +121,19 @@ func (sc c10Scenario) instance() *eng.SchedInstance {
 						return nil
 					})
 				}
+			case "nested":
+				target := rd.rows[0]
+				w.C.Query(func(txn *column.Txn) error {
+					return txn.Range(func(idx uint32) {
+						if idx>>14 == target>>14 {
+							return // (a nested read latch on the block being iterated is re-entrant locking: not exercised)
+						}
+						txn.QueryAt(target, func(r column.Row) error {
+							look(target, func(c string) (int, bool) { return r.Int(c) })
+							return nil
+						})
+					})
+				})
 			default:
 				w.C.Query(func(txn *column.Txn) error {
 					switch rd.kind {
@@ -212,7 +229,7 @@ func init() {
 		Prop:  "C10",
 		Level: "model_checking", NodeStates: true,
 		Rule: "SCHED: writers that update two columns of the same rows while keeping a+b=0 (absolute sets and merges, one row and both blocks) beside readers using QueryAt, Range, " +
-			"WithInt-filtered Range and index-filtered Range, which read a, YIELD to the scheduler, then read b inside one callback; every interleaving at every lock/atomic operation and at " +
+			"WithInt-filtered Range, index-filtered Range and a point read of another block's row nested in a Range callback, which read a, YIELD to the scheduler, then read b inside one callback; every interleaving at every lock/atomic operation and at " +
 			"the yield up to the preemption bound; oracle: inside one callback a+b=0 and (a,b) is a pair reachable by applying some of the writers' changes in some order. " +
 			"states = decision nodes; distinct = distinct sets of observed pairs",
 		Assumptions: []string{
